@@ -389,16 +389,41 @@ func genPipeCase(r *hutil.Rand, i int) pipeCase {
 			c.Writes = append(c.Writes, [2]int{s, 1})
 		}
 	}
-	if len(sizes) > 0 && r.Chance(2, 3) {
+	if len(sizes) > 0 && (r.Chance(2, 3) || i%40 == 7) {
 		for k := 1 + r.Intn(3); k > 0; k-- {
 			c.SleepAt = append(c.SleepAt, r.Intn(len(sizes)))
 		}
 		c.SleepUs = 100 + r.Intn(1500)
 		if i%40 == 7 {
-			// a long silence in the middle of the stream (usually inside a record): a producer that stalls for a
-			// good fraction of a second must not change what is delivered
+			// a long silence in the middle of the stream, INSIDE a record whenever a write ends inside one: a producer
+			// that stalls must not change what is delivered, however long the stall is compared with whatever
+			// interval the reader may poll at (magnitudes in rotation: 0.13-0.19 s, 0.55-0.7 s, 1.1-1.3 s)
 			c.SleepAt = c.SleepAt[:1]
-			c.SleepUs = 130000 + r.Intn(60000)
+			isEnd := map[int]bool{}
+			lastEnd := 0
+			for _, e := range ends {
+				isEnd[e] = true
+				lastEnd = e
+			}
+			var inside []int
+			off := 0
+			for k, s := range sizes {
+				off += s
+				if !isEnd[off] && off < lastEnd {
+					inside = append(inside, k)
+				}
+			}
+			if len(inside) > 0 {
+				c.SleepAt[0] = hutil.Pick(r, inside)
+			}
+			switch (i / 40) % 4 {
+			case 1:
+				c.SleepUs = 550000 + r.Intn(150000)
+			case 3:
+				c.SleepUs = 1100000 + r.Intn(200000)
+			default:
+				c.SleepUs = 130000 + r.Intn(60000)
+			}
 		}
 	}
 	return c
